@@ -391,4 +391,21 @@ def _has_raw(clauses):
     return False
 
 
-PROP = C05()
+from srccall import with_src  # noqa: E402
+
+# translated source (x5): the SpecifierSet constructor, `&`, `==`, `hash`, `len`, `str`, `iter` and the Specifier methods
+# they rest on are regenerated from specifiers.py and proved equal to the SSet.* functions the C05 theorems are about
+# (iteration order of the frozenset: a parameter, see Src.Ordered / Src.ordered_of_perm)
+PROP = with_src(C05(), share=10,
+                functions=["Specifier.__str__", "Specifier._canonical_spec", "Specifier.__hash__", "Specifier.__eq__",
+                           "SpecifierSet.__init__", "SpecifierSet.__and__", "SpecifierSet.__eq__", "SpecifierSet.__hash__",
+                           "SpecifierSet.__len__", "SpecifierSet.__str__", "SpecifierSet.__iter__"],
+                module=["PkgProofs.Props.Src.SSetMember", "PkgProofs.Props.Src.SSetBuild", "PkgProofs.Props.Src.SSetRead"],
+                theorems=["Src.member_translated", "Src.build_translated", "Src.read_translated",
+                          "Src.Specifier.__str___eq_model", "Src.Specifier._canonical_spec_eq_model",
+                          "Src.Specifier.__hash___eq_model", "Src.Specifier.__eq___eq_model", "Src.Specifier.__eq___str",
+                          "Src.SpecifierSet.__init___specs", "Src.SpecifierSet.__init___str",
+                          "Src.SpecifierSet.__and___eq_model", "Src.SpecifierSet.__and___str",
+                          "Src.SpecifierSet.__eq___eq_model", "Src.SpecifierSet.__eq___str", "Src.SpecifierSet.__eq___spec",
+                          "Src.SpecifierSet.__hash___eq_model", "Src.SpecifierSet.__len___eq_model",
+                          "Src.SpecifierSet.__str___eq_model", "Src.SpecifierSet.__iter___eq_model", "Src.ordered_of_perm"])
